@@ -158,6 +158,7 @@ UNIT = {
     "refresher_p1": (dict(postponing=1, L=14), 560, 800, "qt"),
     "refresher_p2": (dict(postponing=2, L=14), 760, 1000, "qt"),
     "refresher_p1_zqcs": (dict(postponing=1, L=14, tzqcs=3, zq_period=150), 560, 800, "qt"),
+    "refresher_p1_long": (dict(postponing=1, L=14), 1150, 1600, "qt"),
     "refresher_p4": (dict(postponing=4, L=20, trefi=100), 0, 1000, "t"),
     "refresher_p8_trefi130": (dict(postponing=8, L=20, trefi=130, trp=3, trfc=6), 0, 1400, "t"),
 }
@@ -181,7 +182,8 @@ def run(ctx):
             if ctx.only and not ctx.only.search(n):
                 continue
             if ctx.tier == "quick" and "q" in tiers:
-                ctx.add(n, kq, timeout=900, diff_cycles=8)
+                ctx.add(n, kq, timeout=900, diff_cycles=8, cover_required=not n.endswith("_long"),
+                        bads=["refresh_owed_exceeds_postponing"] if n.endswith("_long") else None)
             elif ctx.tier == "thorough":
                 ctx.add(n, kt, timeout=3000, diff_cycles=8)
     ctx.run()
